@@ -170,6 +170,16 @@ check("C08", "exploration",
       "Trusted: textbook Green's functions; quadrature rule (C12) and basis evaluation (C09). Points outside the lattice not covered.",
       "exhaustive sweep against closed-form kernel sums, finite-difference PDE residuals and asymptotic limits")
 
+check("C07", "exploration",
+      "Exhaustive sweep over ordered pairs of disjoint grids (closed/closed, open/open, segmented/closed, screen/fan) x {single, "
+      "double layer} x {Laplace, Helmholtz real and complex, modified Helmholtz} x test/trial space kinds (incl. a segment space) x "
+      "orders {2,4,6}: every entry of the two-grid boundary matrix against sum_q w_q J psi_i(x_q) P[phi_j](x_q) with the library's "
+      "potential operator at grid.map_to_point_cloud points (rounding); Maxwell magnetic field likewise with the x n trace; the "
+      "electric field along the order ladder (quadrature class, flux-free test functions on open grids).",
+      "DESIGN.md 4/C07",
+      "Trusted: quadrature rule (C12), basis evaluation (C09); the potentials themselves are validated by C08.",
+      "exhaustive sweep (grid pair x operator x space pair x order) against Galerkin-tested potentials")
+
 ALL = ["C%02d" % i for i in range(1, 21)]
 
 
